@@ -189,7 +189,9 @@ nextIndex:
 			if cfg.Partial != nil {
 				ok, err := mongokit.Match(d, cfg.Partial)
 				if err != nil {
-					continue nextIndex // the filter does not evaluate on a stored document: no verdict
+					// such an index cannot exist: its build and every insert of this document fail
+					add("unevaluable-filter", name+": "+vj.Enc(*cfg.Partial)+" raises an error on stored "+vj.Enc(*d))
+					continue nextIndex
 				}
 				in = ok
 			}
@@ -293,6 +295,22 @@ nextIndex:
 	return out
 }
 
+// idIndexIssue: every user namespace has the unique index `_id_` over {_id: 1} at all times.
+func idIndexIssue(h lungo.Handle, ns *mongokit.Collection) (ixIssue, bool) {
+	if h == lungo.Oplog || h[0] == lungo.Local {
+		return ixIssue{}, false
+	}
+	ix := ns.Indexes["_id_"]
+	if ix == nil {
+		return ixIssue{"id-index-missing", h.String() + " has no _id_ index"}, true
+	}
+	cfg := ix.Config()
+	if !cfg.Unique || cfg.Partial != nil || cfg.Key == nil || len(*cfg.Key) != 1 || (*cfg.Key)[0].Key != "_id" {
+		return ixIssue{"id-index-missing", h.String() + " _id_ is not the unique index over _id: " + defOfConfig(cfg).String()}, true
+	}
+	return ixIssue{}, false
+}
+
 // ---- C15: the set of index names (bookkeeping of the successful calls) ----
 
 type ixDef struct {
@@ -302,6 +320,8 @@ type ixDef struct {
 	partial    string
 	partialDoc bson.D
 	expiry     int64
+	hasTTL     bool  // created with expireAfterSeconds
+	ttlSec     int64 // … this many seconds
 }
 
 func (d ixDef) String() string {
@@ -327,7 +347,7 @@ func defOfConfig(cfg mongokit.IndexConfig) ixDef {
 }
 
 func defOfCall(c *apiCall) ixDef {
-	d := ixDef{key: vj.Enc(c.Keys), keyDoc: c.Keys, unique: c.Unique, partial: "null", expiry: c.expiryNs()}
+	d := ixDef{key: vj.Enc(c.Keys), keyDoc: c.Keys, unique: c.Unique, partial: "null", expiry: c.expiryNs(), hasTTL: c.HasTTL, ttlSec: int64(c.TTL)}
 	if c.HasPartial {
 		d.partial, d.partialDoc = vj.Enc(c.Partial), c.Partial
 	}
@@ -442,6 +462,10 @@ func (b ixBook) check(cat *lungo.Catalog) (out []ixIssue) {
 		sort.Strings(wn)
 		for _, n := range wn {
 			if _, ok := ns.Indexes[n]; !ok {
+				if n == "_id_" {
+					out = append(out, ixIssue{"id-index-missing", h.String() + " has no _id_ index"})
+					continue
+				}
 				out = append(out, ixIssue{"index-lost", h.String() + " lacks index " + n})
 			}
 		}
